@@ -229,6 +229,13 @@ def _bars(ax):
 
 
 def gantt_record(p, sol):
+    import warnings
+    with warnings.catch_warnings():
+        warnings.simplefilter("ignore")     # (matplotlib warns about an empty chart: a solution with nothing scheduled)
+        return _gantt_record(p, sol)
+
+
+def _gantt_record(p, sol):
     import matplotlib
     matplotlib.use("Agg")
     import matplotlib.pyplot as plt
